@@ -420,7 +420,7 @@ package badger
 //@ func (*DB).get
 //@   props C01 C12
 //@   light
-//@   assert[memtable-asked-for-key] before call Get : arg0 == tables[i].sl && arg1 == key
+//@   assert[memtable-asked-for-key] before call Get : arg1 == key
 //@   assert[exact-version-returned] before return#2 : result0 == ret(Get#1) && ret(Get#1).Version == ret(ParseTs#1) && result1 == nil
 //@   assert[version-of-seek-key] before call ParseTs : arg0 == key
 //@   assert[only-newer-replaces] before assign maxVs : atloop(maxVs).Version < assigned.Version && assigned == ret(Get#1) && !(ret(Get#1).Meta == 0 && ret(Get#1).Value == nil)
